@@ -267,11 +267,13 @@ def make_case(g: G, depth, opts):
         elif k == "idx":
             n_el = _vec_length(prog, atys)
             kk = r.randrange(n_el)
+            if prog[0] == "scan" and n_el >= 2 and r.random() < 0.7:
+                kk = r.randrange(n_el - 1)      # a non-final iteration: the next one is re-scored on the new carry
             sub_univ = [q[1:] for q in universe if q and q[0] == kk]
             if prog[0] == "scan" and r.random() < 0.3:
                 ops.append(["idx", s, kk, "regen", g.selection(sub_univ)])
             else:
-                ops.append(["idx", s, kk, "upd", g.constraint(sub_univ, coverage=r.choice([0.0, 0.5, 1.0]))])
+                ops.append(["idx", s, kk, "upd", g.constraint(sub_univ, coverage=r.choice([0.0, 0.5, 1.0, 1.0]))])
             if r.random() < 0.7:
                 ops.append(["assessSelf"])      # the edited trace's score is still the density of its choices
         elif k == "sreq":
@@ -330,6 +332,11 @@ def make_case(g: G, depth, opts):
             ops.append(["empty", s, new_args, tags])
             cur_args = new_args
         elif k == "regen":
+            if r.random() < opts.get("regen_args", 0.0) and not has_node(prog, SWITCHY):
+                # regenerate together with an argument change (every argument tagged UnknownChange)
+                cur_args = _perturb(g, prog, atys, cur_args)
+                ops.append(["regen", s, g.selection(universe), cur_args, ["U"] * len(atys)])
+                continue
             ops.append(["regen", s, g.selection(universe), cur_args])
             if r.random() < 0.6 * opts.get("bwd", 0.5):
                 # the backward request of a regenerate restores the old trace (same arguments)
@@ -360,6 +367,8 @@ def make_case(g: G, depth, opts):
         case["retag"] = True
     if opts.get("derived"):
         case["derived"] = True
+    if opts.get("vbatch") and r.random() < opts["vbatch"] and not case.get("py"):
+        case["vbatch"] = True
     if opts.get("jit") and r.random() < opts["jit"]:
         case["jit"] = True
     elif opts.get("py") and r.random() < opts["py"]:
@@ -473,7 +482,7 @@ def features(case):
     walk(case["prog"])
     for op in case["ops"]:
         f.add("op:" + op[0])
-    for flag in ("py", "jit", "retag"):
+    for flag in ("py", "jit", "retag", "vbatch", "derived"):
         if case.get(flag):
             f.add("case:" + flag)
     if '"ax1"' in json.dumps(case["prog"]):
